@@ -76,7 +76,7 @@ Definition bucket_ok (o : option (list gv)) : Prop :=
   end.
 
 Definition prot_limits (o : option (list gv)) : Prop :=
-  match o with Some (x :: r) => forall m, enc_hmap (x :: r) = Acc m -> within_limits m | _ => True end.
+  match o with Some (x :: r) => forall m, enc_hmap true (x :: r) = Acc m -> within_limits m | _ => True end.
 Definition unprot_limits (o : option (list gv)) : Prop :=
   match o with Some (x :: r) => forall ub, enc_unprotected o = Acc ub -> within_limits ub | _ => True end.
 
@@ -129,7 +129,7 @@ Proof.
   intros Hok Hlim He. destruct o as [[|x r]|].
   - inversion He; subst. exists [], []. repeat split; auto.
   - destruct Hok as [Hs Hv].
-    destruct (dec_protected_of_enc (x :: r) pb ltac:(discriminate) Hs Hv He Hlim) as (m & dl & _ & -> & Sm & _ & D & HR & _ & V).
+    destruct (dec_protected_of_enc (x :: r) pb ltac:(discriminate) Hs Hv He Hlim) as (m & dl & _ & -> & Sm & _ & D & HR & _ & V & _).
     exists m, (cast_alg dl). split; [reflexivity|]. split; [exact Sm|]. split; [exact D|].
     split; [apply same_view_cast; eapply hrel_same_view; eauto|]. exists dl. auto.
   - inversion He; subst. exists [], []. repeat split; auto.
@@ -142,7 +142,7 @@ Proof.
   intros Hok Hlim He. destruct o as [[|x r]|].
   - inversion He; subst. exists (WMap W0 []), []. repeat split; auto.
   - destruct Hok as [Hs Hv].
-    destruct (dec_unprotected_of_enc (x :: r) ub fuel ltac:(discriminate) Hs Hv He (Hlim _ He)) as (w & dl & -> & W & _ & _ & D & HR & _ & V).
+    destruct (dec_unprotected_of_enc (x :: r) ub fuel ltac:(discriminate) Hs Hv He (Hlim _ He)) as (w & dl & -> & W & _ & _ & D & HR & _ & V & _).
     exists w, dl. split; [reflexivity|]. split; [exact W|]. split; [exact D|]. split; [eapply hrel_same_view; eauto|]. split; auto.
   - inversion He; subst. exists (WMap W0 []), []. repeat split; auto.
 Qed.
